@@ -364,6 +364,8 @@ def _struct_common(ck, F, which):
     guarded(ck, rs.value_move, F)
     ck.rule("FULL-RANGE", "whole-row / whole-column references are not displaced along their full dimension", floor=5)
     guarded(ck, rs.full_range_guard, F)
+    ck.rule("REF-SHEET", "displaced references carry their node's sheet index", floor=4)
+    guarded(ck, rs.ref_sheet, F)
     ck.rule("STYLE-LAST", "move_cell copies the source style after every re-entry of the content", floor=2)
     guarded(ck, rs.style_last, F)
     import rules_attr as ra_
